@@ -60,13 +60,14 @@ class Clock:
 
     def __init__(self, base: float, tick: float = 0.0) -> None:
         self.now = float(base)  # the value the next reading returns
-        self.tick = float(tick)  # every reading moves the clock on by this much (0: equal readings)
+        self.tick = float(tick)  # while armed every reading moves the clock on by this much
+        self.armed = False  # armed only around stand-alone queries, so commands see one reading
         self.reads = 0
 
     def time(self) -> float:
         self.reads += 1
         v = self.now
-        if self.tick:
+        if self.tick and self.armed:
             self.now = max(v + self.tick, math.nextafter(v, math.inf))
         return v
 
@@ -94,10 +95,7 @@ class Tracker:
         # model
         self.lk: int | None = None
         self.tgt: int | None = None
-        # the base instant of the current segment is one of the readings taken during the
-        # command: lower / upper bound (equal when the clock does not tick per reading)
-        self.ts_lo = self.ts_hi = Fraction(clock.now)
-        self._t0 = Fraction(clock.now)
+        self.ts_lo = self.ts_hi = Fraction(clock.now)  # base instant of the current segment
         self.strict = False  # a travel whose arrival time the statement fixes
         self.required = Fraction(0)
         self.seg_last: int | None = None
@@ -150,6 +148,11 @@ class Tracker:
         lo, hi = min(self.lk, tgt), max(self.lk, tgt)
         if not lo <= est <= hi:
             side = "past-target" if (est > hi) == (tgt >= self.lk) else "behind-last-known"
+            if side == "past-target":
+                # root causes differ: readings straddling the end instant (shortcut and progress
+                # disagree by a rounding / a later reading) vs. an estimate that keeps running
+                at_end = now_lo - self.ts_hi <= self.required + self._eps(now_hi)
+                side += ":first-reading-not-after-end-instant" if at_end else ":after-end-instant"
             self._fail(f"C40:bounds:{side}", f"{where}: estimate {est} outside [{lo}, {hi}] (last known {self.lk}, target {tgt}, elapsed {float(now_lo - self.ts_hi)!r}..{float(now_hi - self.ts_lo)!r} of {float(self.required)!r})")
         if self.seg_last is not None and abs(tgt - est) > abs(tgt - self.seg_last):
             self._fail("C40:monotone:moved-away-from-target", f"{where}: estimate {est} after {self.seg_last} with target {tgt}")
@@ -166,14 +169,20 @@ class Tracker:
             if 0 < e_min and e_max < self.required:
                 self.mid_queries += 1
 
-    def query(self, where: str = "query"):
+    def query(self, where: str = "query", ticking: bool = False):
+        """One estimate. ticking: the clock moves on between the readings taken inside the query."""
         t_lo = Fraction(self._clock.now)
-        est = self._call("current_position", self._calc.current_position)
+        self._clock.armed = ticking
+        try:
+            est = self._call("current_position", self._calc.current_position)
+        finally:
+            self._clock.armed = False
         self.expect(est, where, t_lo)
         return est
 
     def query_all(self) -> None:
-        est = self.query()
+        self.query("query", ticking=True)
+        est = self.query("query")
         trav = self._call("is_traveling", self._calc.is_traveling)
         reached = self._call("position_reached", self._calc.position_reached)
         for name in ("is_open", "is_closed", "is_opening", "is_closing"):
@@ -191,7 +200,7 @@ class Tracker:
         self._call("stop", self._calc.stop)
         if self.lk is not None:
             self.lk = self.tgt = q0
-            self.ts = Fraction(self._clock.now)
+            self.ts_lo = self.ts_hi = Fraction(self._clock.now)
             self.strict = False
             self.required = Fraction(0)
             self._begin_segment()
@@ -214,7 +223,7 @@ class Tracker:
         self._after_start(q0, POS_MAX)
 
     def _after_start(self, q0, x: int) -> None:
-        self.ts = Fraction(self._clock.now)
+        self.ts_lo = self.ts_hi = Fraction(self._clock.now)
         if self.lk is None:
             est = self._call("current_position", self._calc.current_position)
             if est is None:
@@ -237,7 +246,7 @@ class Tracker:
         self.query("pre-set")
         self._call("set_position", self._calc.set_position, x)
         self.lk = self.tgt = x
-        self.ts = Fraction(self._clock.now)
+        self.ts_lo = self.ts_hi = Fraction(self._clock.now)
         self.strict = False
         self.required = Fraction(0)
         self._begin_segment()
@@ -249,7 +258,7 @@ class Tracker:
         self._call("update_position", self._calc.update_position, x)
         if self.strict and self.tgt is not None and self.lk is not None:
             going = 1 if self.tgt > self.lk else -1
-            expired = now - self.ts >= self.required - self._eps(now)
+            expired = now - self.ts_lo >= self.required - self._eps(now)
             past = (x - self.tgt) * going >= 0
             if expired or past:
                 self.strict = False
@@ -260,7 +269,7 @@ class Tracker:
             self.strict = False
             self.labels.add("report-while-idle")
         self.lk = x
-        self.ts = now
+        self.ts_lo = self.ts_hi = now
         self.required = self._required_for(x, self.tgt) if self.tgt is not None else Fraction(0)
         self._begin_segment()
         self.query("post-report")
@@ -285,7 +294,7 @@ class Tracker:
             new = float(now + self._tt[1] * dist / POS_MAX * k / 8)
         elif kind == "end":
             # the float the code under test computes for the end instant, +- k ulps
-            new = float(self.ts) + float(self.required)
+            new = float(self.ts_lo) + float(self.required)
             for _ in range(abs(k)):
                 new = math.nextafter(new, math.inf if k > 0 else -math.inf)
             self.labels.add("end-instant")
@@ -304,6 +313,7 @@ _adv = st.one_of(
     st.just(("adv", "zero", 0)),
     st.just(("adv", "tiny", 0)),
     st.tuples(st.just("adv"), st.just("frac"), st.integers(1, 12)),
+    st.tuples(st.just("adv"), st.just("frac"), st.integers(1, 7)),
     st.tuples(st.just("adv"), st.sampled_from(["fu", "fd"]), st.integers(1, 12)),
     st.tuples(st.just("adv"), st.just("end"), st.integers(-2, 2)),
     st.tuples(st.just("adv"), st.just("step"), st.integers(1, 3)),
@@ -319,12 +329,15 @@ _calc_op = st.one_of(
     st.just(("q",)),
     _adv,
     _adv,
+    _adv,
 )
 _tt = st.one_of(
     st.sampled_from([0.5, 1.0, 2.5, 10.0, 25.0, 60.0, 120.5, 300.0]),
     st.floats(0.5, 300.0, allow_nan=False, allow_infinity=False),
 )
 _base = st.sampled_from([0.0, 1000.0, 1.7e9, 1726992000.123456])
+_tick = st.sampled_from([0.0, 0.0, 0.0, 1e-7, 1e-3, 0.3])
+_prefix = st.one_of(st.just([]), st.tuples(st.just("set"), _pos).map(lambda o: [o]), st.tuples(st.just("set"), _pos).map(lambda o: [o]))
 
 
 @st.composite
@@ -334,7 +347,8 @@ def calc_histories(draw):
         "tt_down": draw(_tt),
         "tt_up": draw(_tt),
         "base": draw(_base),
-        "ops": [list(o) for o in draw(st.lists(_calc_op, min_size=1, max_size=30))],
+        "tick": draw(_tick),
+        "ops": [list(o) for o in draw(_prefix) + draw(st.lists(_calc_op, min_size=1, max_size=30))],
     }
 
 
@@ -353,6 +367,14 @@ _cover_op = st.one_of(
     st.just(("q",)),
     _adv,
     _adv,
+    _adv,
+    _adv,
+)
+_cover_prefix = st.one_of(
+    st.just([]),
+    st.tuples(st.just("t_report"), _raw, st.booleans()).map(lambda o: [o]),
+    st.tuples(st.just("t_report"), _raw, st.booleans()).map(lambda o: [o, ("c_down",)]),
+    st.tuples(st.just("t_report"), _raw, st.booleans()).map(lambda o: [o, ("t_updown", 0)]),
 )
 
 
@@ -363,6 +385,7 @@ def cover_histories(draw):
         "tt_down": draw(_tt),
         "tt_up": draw(_tt),
         "base": draw(_base),
+        "tick": draw(_tick),
         "cfg": {
             "position": draw(st.booleans()),
             "stop": draw(st.booleans()),
@@ -370,7 +393,7 @@ def cover_histories(draw):
             "invert_position": draw(st.booleans()),
             "invert_updown": draw(st.booleans()),
         },
-        "ops": [list(o) for o in draw(st.lists(_cover_op, min_size=1, max_size=30))],
+        "ops": [list(o) for o in draw(_cover_prefix) + draw(st.lists(_cover_op, min_size=1, max_size=30))],
     }
 
 
@@ -400,7 +423,7 @@ class _Patched:
 def run_calc(ctx, h) -> Tracker:
     from xknx.devices.travelcalculator import TravelCalculator
 
-    clock = Clock(h["base"])
+    clock = Clock(h["base"], h.get("tick", 0.0))
     with _Patched(clock):
         calc = TravelCalculator(h["tt_down"], h["tt_up"])
         tr = Tracker(ctx, calc, clock, h["tt_down"], h["tt_up"], h)
@@ -438,7 +461,7 @@ def run_cover(ctx, h) -> Tracker:
     from xknx.telegram import GroupAddress, Telegram, TelegramDirection
     from xknx.telegram.apci import GroupValueResponse, GroupValueWrite
 
-    clock = Clock(h["base"])
+    clock = Clock(h["base"], h.get("tick", 0.0))
     cfg = h["cfg"]
     holder: dict = {}
 
@@ -534,13 +557,15 @@ def oracle(ctx, h) -> None:
     cls = [h["kind"]] + sorted(tr.labels)
     if h["base"] > 1e9:
         cls.append("epoch-clock")
+    if h.get("tick"):
+        cls.append("clock-ticks-between-readings")
     nontrivial = tr.mid_queries > 0
     if nontrivial:
         cls.append("mid-travel-query")
     sample = None
     if nontrivial and len(h["ops"]) >= 8:
         sample = {"kind": h["kind"], "tt": [h["tt_down"], h["tt_up"]], "ops": h["ops"][:12], "trace_tail": tr.trace[-4:]}
-    ctx.case((h["kind"], h["tt_down"], h["tt_up"], h["base"], repr(h.get("cfg")), repr(h["ops"])), nontrivial=nontrivial, cls=cls, sample=sample)
+    ctx.case((h["kind"], h["tt_down"], h["tt_up"], h["base"], h.get("tick", 0.0), repr(h.get("cfg")), repr(h["ops"])), nontrivial=nontrivial, cls=cls, sample=sample)
 
 
 def _shard(ctx, kind: str, n: int) -> None:
@@ -584,14 +609,15 @@ def selftest(ctx) -> None:
     assert run_fake([0, 0, 50, 99], [5.0, 5.1]) == {"C40:reach:late"}
     assert run_fake([0, 0, 100], [5.0]) == {"C40:reach:early"}
     assert run_fake([0, 0, 50, 49], [5.0, 1.0]) == {"C40:monotone:moved-away-from-target"}
-    assert run_fake([0, 0, 101], [11.0]) == {"C40:bounds:past-target"}
+    assert run_fake([0, 0, 101], [11.0]) == {"C40:bounds:past-target:after-end-instant"}
+    assert run_fake([0, 0, 101], [10.0]) == {"C40:bounds:past-target:first-reading-not-after-end-instant"}
     assert run_fake([0, 0, None], [1.0]) == {"C40:known:estimate-unknown"}
     assert run_fake([0, 0, 50.0], [5.0]) == {"C40:type:float"}
 
 
 def run(ctx) -> None:
-    n_calc = ctx.n(500, 12000)
-    n_cover = ctx.n(150, 4000)
+    n_calc = ctx.n(300, 12000)
+    n_cover = ctx.n(120, 4000)
     jobs = [("calc", n_calc)] * 10 + [("cover", n_cover)] * 6
     parallel(ctx, _shard, jobs)
     ctx.exhaustive = False
